@@ -1078,9 +1078,40 @@ def fam_N(tier):
                 for pos in range(npos):
                     for nm in ("q0", "lq"):
                         yield (n_case, forest, pos, nm, True)
+    yield from n_unbraced_cases()
     # use of a name after its scope closed must be rejected; struct fields / other function's names are not variables
     for src, expect, desc in N_EXTRA:
         yield {"fam": "N", "desc": desc, "expect": expect, "src": src, "why": desc, "units": [{"funcs": [], "entry": "f", "inputs": []}]}
+
+
+def n_unbraced_cases():
+    """A declaration standing alone as the unbraced body of if / else / while / for: the body is a scope of its own."""
+    X = lambda v: ("decl", "int", "x", lit(v))
+    gt = lambda k: B(">", V("a"), lit(k))
+    use = ASG(V("a"), B("+", V("a"), V("x")))
+    loop_for = lambda body: ("for", ("decl", "int", "i", lit(0)), B("<", V("i"), lit(2)), ("pre", "++", "i"), body)
+    cases = [
+        ("if-then-use-after", [("if", gt(0), X(5), None), ("ret", V("x"))], "reject"),
+        ("else-then-use-after", [("if", gt(0), ASG(V("a"), lit(1)), X(6)), ("ret", V("x"))], "reject"),
+        ("while-then-use-after", [("while", B("<", V("a"), lit(0)), X(1)), ("ret", V("x"))], "reject"),
+        ("for-then-use-after", [loop_for(X(3)), ("ret", V("x"))], "reject"),
+        ("both-branches-declare", [("if", gt(0), X(5), X(6)), ("ret", V("a"))], "accept"),
+        ("then-unbraced-else-braced", [("if", gt(0), X(5), ("block", [X(6), use])), ("ret", V("a"))], "accept"),
+        ("declared-again-after-the-if", [("if", gt(0), X(5), None), X(7), ("ret", B("+", V("x"), V("a")))], "accept"),
+        ("two-ifs-declare", [("if", gt(0), X(5), None), ("if", gt(1), X(6), None), ("ret", V("a"))], "accept"),
+        ("if-then-while-declare", [("if", gt(0), X(5), None), ("while", B("<", V("a"), lit(0)), X(6)), loop_for(X(7)), ("ret", V("a"))], "accept"),
+        ("outer-variable-redeclared-in-branch", [X(1), ("if", gt(0), X(5), None), ("ret", V("x"))], "reject"),
+        ("outer-variable-redeclared-in-else", [X(1), ("if", gt(0), use, X(5)), ("ret", V("x"))], "reject"),
+        ("outer-variable-redeclared-in-while", [X(1), ("while", B("<", V("a"), lit(0)), X(5)), ("ret", V("x"))], "reject"),
+        ("parameter-redeclared-in-while", [("while", B("<", V("a"), lit(0)), ("decl", "int", "a", lit(5))), ("ret", V("a"))], "reject"),
+        ("for-header-variable-redeclared-in-unbraced-body", [loop_for(("decl", "int", "i", lit(3))), ("ret", V("a"))], "reject"),
+        ("global-redeclared-in-branch", [("if", gt(0), ("decl", "int", "g0", lit(5)), None), ("ret", V("a"))], "reject"),
+        ("nested-unbraced-ifs-declare", [("if", gt(0), ("if", gt(1), X(5), X(6)), X(7)), ("ret", V("a"))], "accept"),
+    ]
+    for name, body, expect in cases:
+        f = func("f", [("int", "a")], "int", body)
+        yield {"fam": "N", "desc": f"unbraced-declaration;{name}", "expect": expect, "why": name, "prog": {"globals": [("int", "g0")]},
+               "units": [{"funcs": [f], "entry": "f", "inputs": [({"a": v}, {"g0": 100}) for v in (0, 1, 3)]}]}
 
 
 N_EXTRA = [
@@ -1426,6 +1457,33 @@ def c_later_param_case(which, val, tag):
             "units": [{"funcs": [f], "entry": "f", "inputs": [({"sel": s_, "a0": 7, "a1": val}, {}) for s_ in (0, 1)]}]}
 
 
+C_OVERLOAD_SETS = {
+    "vectors": ["int2", "float2", "float3", "float4"], "matrices-and-vectors": ["float3x3", "float4x4", "float3", "float4"],
+    "scalars-and-vectors": ["int", "float", "int2", "float2"], "aggregates": ["PS", "int[3]", "float3", "int"],
+}
+
+
+def c_many_sites_case(setname, order):
+    """One name, four overloads differing in the type class of their parameter only, and one module in which every overload is
+    called from its own function (in the given order of call sites): each site has to reach the overload of ITS argument type."""
+    ty = {"int": "int", "float": "float", "int2": VT("int", 2), "float2": VT("float", 2), "float3": VT("float", 3), "float4": VT("float", 4),
+          "float3x3": ("mat", "float", 3, 3), "float4x4": ("mat", "float", 4, 4), "PS": ("struct", "PS"), "int[3]": ("arr", "int", (3,))}
+    vals = {"int": 3, "float": 1.5, "int2": [1, 2], "float2": [1.5, 2.5], "float3": [1.5, 2.5, 3.5], "float4": [1.5, 2.5, 3.5, 4.5],
+            "float3x3": mat_value(3, 1), "float4x4": [[1.0, 2.0, 3.0, 4.0]] * 4, "PS": {"fa": 1, "hb": 2.5}, "int[3]": [1, 2, 3]}
+    names = C_OVERLOAD_SETS[setname]
+    helpers = [func("pick", [(ty[t], "p")], "int", [("ret", lit(100 + k))], export=False) for k, t in enumerate(names)]
+    sites = [names[i] for i in order]
+    callers = [func(f"site{j}", [(ty[t], "a")], "int", [("ret", B("+", ("call", "pick", [V("a")]), lit(1000 * j)))], export=False) for j, t in enumerate(sites)]
+    body = [("if", B("==", V("sel"), lit(j)), ("block", [("ret", ("call", f"site{j}", [V(f"a{j}")]))]), None) for j in range(4)]
+    # the same four calls once more inside ONE function, in the opposite order
+    body += [("if", B("==", V("sel"), lit(4 + j)), ("block", [("ret", ("call", "pick", [V(f"a{3 - j}")]))]), None) for j in range(4)]
+    body.append(("ret", lit(-1)))
+    f = func("f", [("int", "sel")] + [(ty[t], f"a{j}") for j, t in enumerate(sites)], "int", body)
+    args = {f"a{j}": vals[t] for j, t in enumerate(sites)}
+    return {"fam": "C", "desc": f"shape=many-call-sites;overloads={setname};site-order={''.join(map(str, order))}", "prog": {"funcs": helpers + callers, "structs": [("PS", [("int", "fa"), ("float", "hb")])]},
+            "units": [{"funcs": [f], "entry": "f", "inputs": [(dict(args, sel=k), {}) for k in range(8)]}]}
+
+
 def c_convert_case(kind):
     """Argument conversions at the call boundary (values where floor = trunc)."""
     if kind == "int-to-float":
@@ -1474,6 +1532,11 @@ def fam_C(tier):
                 yield (c_overload_case, pair, which, mutate)
     for which, val, tag in (("int", 5, 1), ("float", 1.5, 2), ("float4", [1.5, 2.5, 3.5, 4.5], 3)):
         yield (c_later_param_case, which, val, tag)
+    for setname in C_OVERLOAD_SETS:
+        for order in itertools.permutations(range(4)):
+            if tier == "quick" and order[0] > order[-1] and setname != "vectors":
+                continue
+            yield (c_many_sites_case, setname, order)
     for kind in ("int-to-float", "float-to-int", "mixed-two-args", "float-to-int-fraction", "float-vector-to-int-vector", "int-vector-to-float-vector"):
         yield (c_convert_case, kind)
 
